@@ -15,10 +15,13 @@
 
   Parameters (not modelled, DESIGN §4): the TLS handshake (`Handshake`), chain validation, the
   `ipaddress` parser (the peer address arrives parsed, as its packed octets), and the existence of
-  `ssl.match_hostname` in the running interpreter (`Env.nativeMatch`).
+  `ssl.match_hostname` in the running interpreter (`Env.nativeMatch`; read only under the former
+  quirk `callsNative`).
 
-  `Quirks` names the behaviours that a later repair of /repo is expected to remove; `Quirks.current`
-  is the code under verification. Import-free, executable.
+  Six defects of this code have been repaired in /repo (3b62066, b2a96b5, 65245fc, 2dfed8d, ad23ebd,
+  9005d8e); the old behaviours remain expressible through the switches of `Quirks` (all off in
+  `Quirks.current`, the code under verification) so that a regression can be named.
+  Import-free, executable.
 -/
 namespace DtnVerif
 namespace TlsPolicy
@@ -106,38 +109,42 @@ inductive Handshake where
 
 /-- Exception classes that leave the receive callback in this model. -/
 inductive Esc where
-  /-- `AttributeError`: `ssl.match_hostname` missing / `get_app_socket()` is `None` after close -/
+  /-- `AttributeError` (former defects only): `ssl.match_hostname` missing / `get_app_socket()` is `None` -/
   | attributeError
-  /-- `TypeError`: `x509.load_der_x509_certificate(None)` (peer presented no certificate) -/
+  /-- `TypeError` (former defect only): `x509.load_der_x509_certificate(None)` -/
   | typeError
-  /-- the `OSError` raised by the handshake -/
+  /-- the `OSError` raised by the handshake (former defect only) -/
   | osError
   deriving DecidableEq, Repr, Inhabited
 
-/-- Behaviours of the present code which a repair is expected to remove. -/
+/-- Former behaviours of the code, each removed by a fix commit of /repo. A switch set to `true`
+    re-creates the old behaviour; the C15 check uses that only to name a regression. -/
 structure Quirks where
-  /-- D27: `ssl.match_hostname(...)` is called "for reference"; where the interpreter has no such
-      function (Python ≥ 3.12) the `AttributeError` escapes -/
+  /-- D27 (3b62066): `ssl.match_hostname(...)` was called "for reference"; where the interpreter has no
+      such function (Python ≥ 3.12) the `AttributeError` escaped -/
   callsNative : Bool
-  /-- D13: `match_id(None, cert, DNSName)` yields `False` for any DNS-ID, and `False is None` is
-      false, so an *unverifiable* DNS-ID makes `netname_absent` false -/
+  /-- D13 (b2a96b5): `match_id(None, cert, DNSName)` yields `False` for any DNS-ID, and `False is None`
+      is false, so an *unverifiable* DNS-ID made `netname_absent` false -/
   uncheckedDnsCounts : Bool
-  /-- octets which followed the contact header in the same read stay in the receive buffer across
-      the TLS handshake and are then processed as if they had arrived protected -/
+  /-- (2dfed8d) octets which followed the contact header in the same read stayed in the receive buffer
+      across the TLS handshake and were then processed as if they had arrived protected; now discarded -/
   carriesPlaintext : Bool
-  /-- `getpeercert(True)` returning `None` (no peer certificate) raises `TypeError` -/
+  /-- (65245fc) `getpeercert(True)` returning `None` (no peer certificate) raised `TypeError`; now every
+      identifier counts as absent -/
   noCertRaises : Bool
-  /-- a non-SSL `OSError` from the handshake escapes `recv_message` (only `ssl.SSLError` is caught) -/
+  /-- (ad23ebd) a non-SSL `OSError` from the handshake escaped `recv_message` (only `ssl.SSLError` was
+      caught); now `except OSError` -/
   handshakeOsEscapes : Bool
-  /-- `recv_raw` keeps taking messages out of its buffer after `recv_message` closed the connection -/
+  /-- (9005d8e) `recv_raw` kept taking messages out of its buffer after `recv_message` had closed the
+      connection; now the loop stops -/
   handlesAfterClose : Bool
   deriving DecidableEq, Repr, Inhabited
 
-/-- The code under verification (/repo working tree). -/
-def Quirks.current : Quirks := ⟨true, true, true, true, true, true⟩
+/-- The code under verification (/repo working tree): all six defects are repaired. -/
+def Quirks.current : Quirks := ⟨false, false, false, false, false, false⟩
 
-/-- All six behaviours repaired (the target of the proposed patches). -/
-def Quirks.repaired : Quirks := ⟨false, false, false, false, false, false⟩
+/-- The code before the six fix commits (regression naming only). -/
+def Quirks.old : Quirks := ⟨true, true, true, true, true, true⟩
 
 /-! ## Contact stage -/
 
@@ -149,7 +156,8 @@ inductive Contact where
   | proceedTls
   /-- `self.close()`; `attempted` = the handshake had been started -/
   | close (attempted : Bool)
-  /-- an exception left `recv_message` during the handshake: not closed, no read watch any more -/
+  /-- (former defect only) an exception left `recv_message` during the handshake: not closed, no read
+      watch any more -/
   | wedged
   deriving DecidableEq, Repr, Inhabited
 
@@ -211,8 +219,9 @@ inductive Auth where
     `uncheckedDnsCounts`: `Quirks.uncheckedDnsCounts`. -/
 def authDecision (uncheckedDnsCounts : Bool) (ip dns node : IdResult) (dnsKnown requireHost requireNode : Bool) : Auth :=
   let anyFail := ip == .mismatch || (dnsKnown && dns == .mismatch) || node == .mismatch
-  let dnsAbsent := if uncheckedDnsCounts then dns == .absent
-                   else dns == .absent || !dnsKnown        -- repaired: a DNS-ID nobody checked is no authentication
+  -- `authn_dnsid is None or not peer_dnsid`: a DNS-ID nobody could compare is no authentication
+  let dnsAbsent := if uncheckedDnsCounts then dns == .absent          -- former D13 behaviour
+                   else dns == .absent || !dnsKnown
   let netnameAbsent := ip == .absent && dnsAbsent
   if anyFail || (netnameAbsent && requireHost) || (node == .absent && requireNode) then .termContactFailure
   else .establish
@@ -253,12 +262,13 @@ def sessDecision (q : Quirks) (c : Cfg) (e : Env) (p : PeerId) (ct : Contact) : 
   match ct with
   | .wedged => .notDelivered                 -- the exception ended `recv_raw`; the watch is gone
   | .close _ =>
-    -- `recv_raw` keeps looping after `close()`: a pipelined SESS_INIT is still handled, and
-    -- `self.get_app_socket().getpeername()` is an attribute of `None`
+    -- `while self.__rx_buf and self.get_app_socket() is not None`: nothing is handled after `close()`
+    -- (formerly a pipelined SESS_INIT was still handled: `None.getpeername()`)
     if e.pipelined && q.handlesAfterClose then .escaped .attributeError else .notDelivered
   | .proceedClear => .established            -- no `sock_tls`: nothing is checked
   | .proceedTls =>
-    if e.pipelined && !q.carriesPlaintext then .notDelivered     -- repaired: plaintext leftovers dropped + closed
+    -- octets received ahead of the handshake are discarded after `secure()`
+    if e.pipelined && !q.carriesPlaintext then .notDelivered
     else if q.callsNative && !e.nativeMatch then .escaped .attributeError
     else if !p.certPresent then
       (if q.noCertRaises then .escaped .typeError
